@@ -2,8 +2,13 @@ import PandoraModel.Properties.C02
 #print axioms Pandora.C02.popcount_source_eq_model
 #print axioms Pandora.C02.typeMeasure_source_eq_model
 #print axioms Pandora.C02.cmax_source_eq_model
+#print axioms Pandora.C02.costVolume_eq_specWith_of_raw
 #print axioms Pandora.C02.costVolume_eq_spec_of_raw
 #print axioms Pandora.C02.rawOK_sad_ssd
 #print axioms Pandora.C02.rawOK_zncc
+#print axioms Pandora.C02.rawOK_census
 #print axioms Pandora.C02.costVolume_eq_spec_sad_ssd
 #print axioms Pandora.C02.costVolume_eq_spec_zncc
+#print axioms Pandora.C02.costVolume_eq_spec_census_partial
+#print axioms Pandora.C02.nan_iff_not_computable
+#print axioms Pandora.C02.popcount_9bit
